@@ -16,6 +16,8 @@ The OpenMP half (atomic / non-atomic `clips +=`, finding F8) is `Properties/C06T
   resampler fed channel `c` alone observes — PROVIDED the conversion does not use the dither seed (`PureConv`: every
   output type but int16 with dither on).  `mono_reads_channel`: what that 1-channel resampler reads is exactly channel
   `c`'s data in either input layout.
+* `multi_equals_mono_view` / `channel_data_isolation`: with ANY conversion whose seed advance is data-independent (dither
+  included) channel `c` is the 1-channel run seen through `chanView`, hence never depends on other channels' DATA;
 * the excluded case is really false (finding F17): `dither_breaks_multi_equals_mono` — int16 output with dither, two
   channels: channel 1 continues the dither stream where channel 0 stopped;
 * `clips_eq_sum_shares` (any conversion) and `clips_sum_of_mono_runs` (seed-free conversions): the clip counter is the sum of
@@ -72,7 +74,8 @@ example : (walk 3 2)[4]? = some (1, 1) := by decide
 theorem mono_reads_channel (cfg : Cfg α β) (len : Nat) (X : List (List β)) (c : Nat) (hc : c < cfg.ch)
     (hlen : (X.getD c []).length = len) :
     decodeIn (monoCfg cfg) len (projIn cfg c len (encodeIn cfg len X)) 0 = X.getD c [] := by
-  rw [decode_proj cfg c len len _ (Nat.le_refl _), decode_encode cfg len X c hc, takePad_eq_self _ hlen]
+  show decodeIn (monoCfgC cfg cfg.cout) len _ 0 = _
+  rw [decode_proj cfg cfg.cout c len len _ (Nat.le_refl _), decode_encode cfg len X c hc, takePad_eq_self _ hlen]
 
 /-- MAIN (sequential, seed-free conversion).  For every engine with a count abstraction, every configuration (any `ch`,
     4 layout combinations), every channel `c < ch`, every initial seed and EVERY sequence of API calls: the observations of
@@ -81,7 +84,28 @@ theorem multi_equals_mono_partial (Sh : Shape E κ) (cfg : Cfg α β) (P : PureC
     (seed : Nat) (ops : List (Op β)) :
     (run E (monoCfg cfg) (initSt E 1 seed) (ops.map (projOp cfg c))).2
       = (run E cfg (initSt E cfg.ch seed) ops).2.map (projObs c) :=
-  (run_sim Sh cfg P ops (rel_init Sh cfg.ch c seed hc)).2
+  (run_sim Sh cfg (chanConv_of_pure P cfg.ch c hc) ops (rel_init Sh cfg.ch c seed hc)).2
+
+/-- the general form (dither included): if the conversion's seed advance depends on the seed and the number of samples only
+    (`adv`; true of rint-clip.h: two LCG draws per block of 16 and two for the tail), channel `c` of the multi-channel run is
+    the run of a 1-channel resampler whose conversion is channel `c`'s VIEW of the shared dither stream (`chanView`: skip
+    `c` channels' worth of draws, convert, skip the rest) — same seed, same everything else -/
+theorem multi_equals_mono_view (Sh : Shape E κ) (cfg : Cfg α β) (adv : Nat → Nat → Nat)
+    (hadv : ∀ seed ys, (cfg.cout seed ys).2.2 = adv seed ys.length) (c : Nat) (hc : c < cfg.ch)
+    (seed : Nat) (ops : List (Op β)) :
+    (run E (monoCfgC cfg (chanView cfg.cout adv cfg.ch c)) (initSt E 1 seed) (ops.map (projOp cfg c))).2
+      = (run E cfg (initSt E cfg.ch seed) ops).2.map (projObs c) :=
+  (run_sim Sh cfg (chanConv_of_seedLen cfg.cout adv hadv cfg.ch c hc) ops (rel_init Sh cfg.ch c seed hc)).2
+
+/-- CHANNEL DATA ISOLATION, dither included: two call sequences that agree on everything channel `c` is handed (same calls,
+    same sizes, same samples for channel `c`, same answers of the input function for channel `c`) give the caller the same
+    observations for channel `c` — whatever the OTHER channels carry.  No hypothesis on the conversion beyond the
+    data-independence of its seed advance. -/
+theorem channel_data_isolation (Sh : Shape E κ) (cfg : Cfg α β) (adv : Nat → Nat → Nat)
+    (hadv : ∀ seed ys, (cfg.cout seed ys).2.2 = adv seed ys.length) (c : Nat) (hc : c < cfg.ch)
+    (seed : Nat) (ops ops' : List (Op β)) (hops : ops.map (projOp cfg c) = ops'.map (projOp cfg c)) :
+    (run E cfg (initSt E cfg.ch seed) ops).2.map (projObs c) = (run E cfg (initSt E cfg.ch seed) ops').2.map (projObs c) := by
+  rw [← multi_equals_mono_view Sh cfg adv hadv c hc seed ops, ← multi_equals_mono_view Sh cfg adv hadv c hc seed ops', hops]
 
 /-- the clip counter is the sum of the per-channel shares for ANY conversion (dither included), any call sequence -/
 theorem clips_eq_sum_shares (cfg : Cfg α β) (seed : Nat) (ops : List (Op β)) :
@@ -99,12 +123,12 @@ theorem clips_sum_of_mono_runs (Sh : Shape E κ) (cfg : Cfg α β) (P : PureConv
     · -- no channel: nothing ever changes the length of the (empty) engine list
       have := (run_len0 (E := E) cfg ops (initSt E cfg.ch seed) (by simp [initSt]))
       rw [hinv.2, this, h0]
-    · exact (run_sim Sh cfg P ops (rel_init Sh cfg.ch 0 seed hpos)).1.clen
+    · exact (run_sim Sh cfg (chanConv_of_pure P cfg.ch 0 hpos) ops (rel_init Sh cfg.ch 0 seed hpos)).1.clen
   rw [hinv.1, ← sum_range_getD, hlen]
   congr 1
   apply List.map_congr_left
   intro c hc
-  exact ((run_sim Sh cfg P ops (rel_init Sh cfg.ch c seed (List.mem_range.mp hc))).1.clips).symm
+  exact ((run_sim Sh cfg (chanConv_of_pure P cfg.ch c (List.mem_range.mp hc)) ops (rel_init Sh cfg.ch c seed (List.mem_range.mp hc))).1.clips).symm
 
 /-! ## both-split path ≡ generic path -/
 
@@ -200,24 +224,14 @@ theorem dither_breaks_multi_equals_mono :
   revert h2
   decide
 
-/-! ## stated, NOT proved here -/
-
-/-- channel DATA isolation also with dither: if the conversion's seed advance depends on the seed and the number of samples
-    only (true of rint-clip.h: two LCG draws per block of 16 and two for the tail), what the caller sees of channel `c` does
-    not depend on the other channels' samples.  Exercised by `harness/chan/iso.c` (dithered jobs differ from the mono run by
-    dither noise only, F17), not proved: it needs a second simulation (two multi-channel runs) alongside `Rel`. -/
-def Goal_channel_data_isolation : Prop :=
-  ∀ (σ α β κ : Type) (E : Engine σ α) (_ : Shape E κ) (cfg : Cfg α β) (adv : Nat → Nat → Nat),
-    (∀ seed ys, (cfg.cout seed ys).2.2 = adv seed ys.length ∧ (cfg.cout seed ys).1.length = ys.length) →
-    ∀ (c : Nat), c < cfg.ch → ∀ (seed : Nat) (ops ops' : List (Op β)),
-      ops.map (projOp cfg c) = ops'.map (projOp cfg c) →
-      ((run E cfg (initSt E cfg.ch seed) ops).2.map (fun o => (projObs c o).out))
-        = ((run E cfg (initSt E cfg.ch seed) ops').2.map (fun o => (projObs c o).out))
-
 /-! ## non-vacuity: the hypotheses are satisfiable by the engine and conversions the executable tie runs -/
 
 example : Shape (Toy.engine 2 3 4) Toy.TK := Toy.shape 2 3 4
 example : PureConv (Toy.cfg 3 true false 2 true 1 1 false).cout := Toy.pureToy 2 true (by decide)
+/-- the dithering int16 conversion of the toy tie advances the seed by a function of (seed, number of samples) only -/
+example : ∃ adv : Nat → Nat → Nat, ∀ seed (ys : List Int), (Toy.toyCout 3 true seed ys).2.2 = adv seed ys.length :=
+  ⟨fun seed n => (Toy.ditherAll (n / 16 + 1) (List.replicate n 0) seed).2.2, Toy.dither_seed_len⟩
+
 /-- a 3-channel, split-in / interleaved-out run whose channel 2 is what the mono run delivers (saturating int16, scale 4:
     2 of the 3 samples of channel 2 clip) -/
 example :
